@@ -13,8 +13,8 @@ from mc.world import World1, num_in, num_out, stored_counters, journal_rows
 POOL = [("SRV", "CLI"), ("ACC", "INI"), ("S1", "T1"), ("EXCH", "FIRM")]
 CFG = {"S": "SRV", "T": "CLI"}
 
-SLOTS_Q = ("app", "dec", "hb", "hole", "failed")
-SLOTS_T = ("app", "dec", "hb", "hole", "failed", "grp", "tr")
+SLOTS_Q = ("app", "dec", "hb", "hole", "failed", "pdn")
+SLOTS_T = ("app", "dec", "hb", "hole", "failed", "pdn", "grp", "tr")
 
 
 def _mk(kind, uid):
@@ -22,6 +22,9 @@ def _mk(kind, uid):
 
     if kind in ("app", "hole", "failed"):
         return FIXMessage("D", {11: f"ord{uid}", 55: "X", 58: "a=b"})
+    if kind == "pdn":
+        # application message that spells out PossDupFlag=N
+        return FIXMessage("D", {11: f"pdn{uid}", 55: "X", FTag.PossDupFlag: "N"})
     if kind == "dec":
         return FIXMessage("D", {11: f"dec{uid}", 55: "X"})
     if kind == "grp":
@@ -83,7 +86,7 @@ def run_case(case):
                 note_written("session")
             else:
                 w.send(_mk(k, uid))
-                note_written({"app": "app", "grp": "app", "dec": "declined", "hb": "session"}[k])
+                note_written({"app": "app", "grp": "app", "pdn": "app", "dec": "declined", "hb": "session"}[k])
         if awaiting:
             w.advance(1.0)
             w.peer("D", w.peer_seq + 2, [(11, "early")])
